@@ -1085,7 +1085,7 @@ def run_history(w, calls, rng=None, gen=None, n_calls=0):
         p = oracle_placement(w, call, before, moms, res)
         if p:
             add('placement', p)
-        if call['c'] in QUERIES or (call['c'] not in BASIC and step % 2 == 0):
+        if call['c'] in QUERIES or call['c'] not in BASIC:
             for p in oracle_queries(w, random.Random(step * 7919 + 13)):      # deterministic per step: shrinking stays reproducible
                 add('query', p)
     for p in oracle_queries(w, random.Random(len(out_calls)), heavy=True):
@@ -1118,7 +1118,7 @@ def run(ctx):
     ctx.set_obligations(coq.compile_props('C05'))
     vocab = Vocab(cirq)
     witness_stream(ctx, cirq, vocab)
-    n = 360 if ctx.tier == 'quick' else 8000
+    n = 360 if ctx.tier == 'quick' else 6000
     history_stream(ctx, cirq, vocab, n)
 
 
@@ -1162,7 +1162,7 @@ def witness_stream(ctx, cirq, vocab):
             report_problem(ctx, cirq, vocab, w, calls, step, kind, what)
 
 
-def history_stream(ctx, cirq, vocab, n, shard=120):
+def history_stream(ctx, cirq, vocab, n, shard=300):
     hists = []
     for i in range(n):
         w = World(cirq, vocab)
